@@ -32,6 +32,7 @@ type Result struct {
 	MaxDepth   int              `json:"max_choice_depth"`
 	Outcomes   map[string]int64 `json:"outcomes"`
 	Capped     bool             `json:"capped"`
+	Undecided  int64            `json:"undecided_polling_horizons"`
 	TimedOut   bool             `json:"timed_out"`
 	Violations []Violation      `json:"violations"`
 	Wall       float64          `json:"wall_s"`
@@ -149,6 +150,9 @@ func main() {
 				res.Violations = append(res.Violations, Violation{Key: key, What: v + " | " + describe(o), Scenario: sc, Choices: ch, Bounds: bounds})
 			}
 			res.Outcomes["VIOLATION "+v]++
+		} else if o.Polling {
+			res.Undecided++
+			res.Outcomes["UNDECIDED horizon reached while polling (sleep-and-retry code; bounded exploration cannot tell a long wait from a livelock)"]++
 		} else {
 			res.Outcomes[describe(o)]++
 		}
